@@ -382,6 +382,14 @@ def processConc (h : Hist) (b : Block) (otoks : List String) : Hist :=
                  concViol := h.concViol.push ("C07", "registry-model-unreachable",
                    (" ".intercalate b.ev) ++ s!" :: the handlers ended in {reprStr impl}; the model of the registry's critical sections reaches, from the same state, only {reprStr outs}") }
     | _, _ => h
+  -- C10 / C01 under concurrency: every member works on its session's module states (two participants initialising the
+  -- module of one session at once must end up with the same state)
+  let h := (b.extra.filterMap fun (x : String) => match x.splitOn " " with | ["splitstate", c, name] => some (c, name) | _ => none).eraseDups.foldl
+    (fun (h : Hist) (cn : String × String) =>
+      let d := flatS s!"{" ".intercalate b.ev} :: the {cn.2} module of connection {cn.1} holds a state of its own, not the one of its session"
+      let also := if cn.2 == "dagaz" then "C20" else "C09"
+      let v := (((h.concViol.push ("C01", "module-state-split", d)).push ("C10", "module-state-split", d)).push ("C16", "module-state-split", d)).push (also, "module-state-split", d)
+      { h with concViol := v }) h
   -- C16 under concurrency: of the actions of one entity and name accepted within the block, the server keeps one with the
   -- latest timestamp (the entity being still there)
   let h := match parseConc b.ev with
